@@ -52,7 +52,9 @@ T_C05 = [('Bashlex.C05.' + t, C05M) for t in ['C05_partial', 'C05_partial_parts'
 C05T = 'Bashlex.Props.C05Total'
 T_C05 += [('Bashlex.C05.' + t, C05T) for t in ['tokLog', 'C05_total_conditional', 'C05_total_single_conditional', 'C05_total_tokens_in_leaves']]
 T_C05 += [('Bashlex.C05.' + t, 'Bashlex.Props.C05Checked') for t in ['C05_total_checked', 'C05_total_tokens_in_leaves_checked', 'parserRunK_leaves']]
+T_C05 += [('Bashlex.C05.' + t, 'Bashlex.Props.C05Chars') for t in ['C05_chars_checked', 'posLay_charLay', 'skip_isLayout']] + [('Bashlex.C05.TG.' + t, 'Bashlex.Props.C05.TokGapsProof') for t in ['tokGaps_next', 'tokGaps_gather', 'tokLogG', 'tokLogGL', 'tokGapsC']]
 reg('C05', 'propchecks.treespec', 'proof', T_C05 + T1, [ASCII, DEPTH, CORR,
+    'C05_chars_checked (the CHARACTER level, no hypothesis, same decidable condition): tokGaps_next - between the end of one delivered token and the start of the next the tokenizer skips only blanks, tabs, backslash-newline pairs and one comment up to its newline (which is the NEWLINE token); gathered here-document bodies lie inside the NEWLINE token span or between tokens - is PROVED for the real tokenizer (D31/D32 need no exclusion: the lost characters lie inside the previous token); lifted to the log (tokGapsC) and to the tree: every character of a part below the run frontier is inside a leaf, is layout (posLay_charLay: blank, tab, newline, the backslash of a continuation, inside a comment), belongs to the look-ahead token, to a time token (D19) or to a gathered here-document body. Residual, stated: that every gathered body is a leaf of the tree (a conservation fact of the actions; true on all inputs evaluated) and the link to the executable coverOK (qsort). ' +
     'C05_total_checked (NO hypothesis, decidable per-input condition rootEndsChecked as in C03). C05_total_conditional (token level), with RootEnds as the only hypothesis left (the token-source hypothesis is discharged: tokLog): one part per parser run, in order; the leaves of each part are exactly the delivered tokens, grouped '
     '([fd] op target = one redirect leaf, here-document bodies attached), no token duplicated, and the only tokens without a leaf are NEWLINEs in five listed grammar positions (kernel-checked witnesses); D19 is characterised exactly and '
     'excluded by a decidable predicate. NOT proved: the character-level half (text outside leaf spans is layout: TokGaps) and the link to the executable Spec.coverOK (its qsort cannot be evaluated in the kernel); both are decided per input'])
